@@ -662,6 +662,11 @@ class Quantity:
         :returns:
             An object with values to the passed unit.
         """
+        # same unit: no conversion needed (also valid for derived quantities, whose unit is not
+        # registered in the unit database).
+        if to_unit == self._unit:
+            return value
+
         return self._unit_database.Convert(
             self._composing_categories, self._composing_units, to_unit, value
         )
